@@ -55,6 +55,33 @@ def rat(n):
     return Rational(v.numerator, v.denominator)
 
 
+INT_RX = re.compile(r"^(const )?(unsigned |signed )?(long long|long|int|short|char|votca::Index|std::size_t|size_t|unsigned)( int)?$")
+
+
+class idiv(Function):
+    """C++ integer quotient (truncation toward zero); evaluates on integers, stays symbolic otherwise"""
+    is_real = True
+
+    @classmethod
+    def eval(cls, a, b):
+        if getattr(a, "is_Integer", False) and getattr(b, "is_Integer", False) and b != 0:
+            q = abs(int(a)) // abs(int(b))
+            return sp.Integer(q if (int(a) >= 0) == (int(b) > 0) else -q)
+        if b == 1:
+            return a
+
+
+class imod(Function):
+    """C++ integer remainder (sign of the dividend)"""
+    is_real = True
+
+    @classmethod
+    def eval(cls, a, b):
+        if getattr(a, "is_Integer", False) and getattr(b, "is_Integer", False) and b != 0:
+            r_ = abs(int(a)) % abs(int(b))
+            return sp.Integer(r_ if int(a) >= 0 else -r_)
+
+
 class Terminated(Exception):
     pass
 
@@ -245,6 +272,8 @@ class Fold:
             return self.compare(op, a, b)
         if op == ",":
             return b
+        if op in ("/", "%") and INT_RX.match((n.get("type") or "").strip()) and not isinstance(a, (Matrix, tuple)) and not isinstance(b, (Matrix, tuple)):
+            return (idiv if op == "/" else imod)(a, b)       # C++ integer division truncates toward zero
         return self.arith(op, a, b)
 
     def compare(self, op, a, b):
@@ -279,6 +308,8 @@ class Fold:
                                                  ("<", "<=", ">", ">=", "==", "!=", "&&", "||", "!", "ite"))
 
     def ite(self, c, a, b):
+        while isinstance(c, tuple) and len(c) == 2 and c[0] == "!":
+            c, a, b = c[1], b, a                 # ite(!x, a, b) == ite(x, b, a): one canonical polarity
         if (self.is_condval(a) or self.is_condval(b)) and not isinstance(a, Matrix) and not isinstance(b, Matrix):
             if a == b:
                 return a
@@ -460,8 +491,9 @@ class Fold:
             for key, v in env.items():
                 if isinstance(key, tuple):
                     sub[key] = v
+        bound = {}
         for p_, a in zip(params, arg_nodes):
-            sub[p_["decl"]] = self.ev(a, env)
+            sub[p_["decl"]] = bound[p_["decl"]] = self.ev(a, env)
         if not hasattr(self, "root"):
             self.root = self.f
         self.stack = getattr(self, "stack", [])
@@ -525,7 +557,8 @@ class Fold:
         written = self.assigned_in(body)
         for p_, a in zip(params, arg_nodes):
             t = (p_.get("type") or "").strip()
-            if t.endswith("&") and not t.startswith("const ") and p_["decl"] in written and p_["decl"] in fin:
+            if t.endswith("&") and not t.startswith("const ") and p_["decl"] in fin and a is not None and a.get("k") != "__val" and \
+                    (p_["decl"] in written or not self.same(fin[p_["decl"]], bound.get(p_["decl"]))):
                 self.store(a, fin[p_["decl"]], env, n)
         if val is None:
             return S("void@%s" % n["id"])
@@ -763,6 +796,8 @@ class Fold:
             v = self.ev(s["value"], env) if s.get("value") is not None else None
             self.returns.append((v, list(self.guards), s))
             self.return_envs.append(env.copy())
+            if self.depth == 0:
+                self.event({"kind": "return", "value": v, "node": s}, None)
             self.exits.append(("return", None, list(self.guards)))
             raise Terminated()
         elif k == "if":
